@@ -412,7 +412,82 @@ def check_surface(c):
     return res
 
 
-CHECKERS = {'entry': check_entry, 'surface': check_surface}
+def _periodic(shape, rk, order, pat='gen', tag=96):
+    """A train whose equal-shaped middle cores are ONE ndarray object (a periodic tensor), in the given memory order."""
+    d = len(shape)
+    A = np.array(space.core(pat, 1, shape[0], rk, 0, 0, tag), order=order)
+    G = np.array(space.core(pat, rk, shape[1], rk, 1, 0, tag), order=order)
+    B = np.array(space.core(pat, rk, shape[-1], 1, 2, 0, tag), order=order)
+    return [A] + [G] * (d - 2) + [B]
+
+
+def _periodic_calls():
+    g = lambda sh: space.grid_array(sh)
+    f = lambda I: np.cos(np.asarray(I) @ (1.0 + np.arange(np.asarray(I).shape[1])))
+    C = {
+        'copy': lambda Y, sh: teneva.copy(Y),
+        'get_many': lambda Y, sh: teneva.get_many(Y, g(sh)),
+        'get_and_grad': lambda Y, sh: teneva.get_and_grad(Y, [0] * len(sh)),
+        'interface.ltr': lambda Y, sh: teneva.interface(Y, P=[[1.0, 0.5, 2.0][:n] for n in sh], i=[1] * len(sh), norm=None, ltr=True),
+        'interface.rtl': lambda Y, sh: teneva.interface(Y, norm='linalg'),
+        'mean': lambda Y, sh: teneva.mean(Y), 'sum': lambda Y, sh: teneva.sum(Y), 'norm.stab': lambda Y, sh: teneva.norm(Y, use_stab=True),
+        'full': lambda Y, sh: teneva.full(Y),
+        'add.self': lambda Y, sh: teneva.add(Y, Y), 'sub.self': lambda Y, sh: teneva.sub(Y, Y), 'mul.self': lambda Y, sh: teneva.mul(Y, Y),
+        'mul.num': lambda Y, sh: teneva.mul(Y, -2.0), 'outer.self': lambda Y, sh: teneva.outer(Y, Y), 'mul_scalar.self': lambda Y, sh: teneva.mul_scalar(Y, Y),
+        'accuracy.self': lambda Y, sh: teneva.accuracy(Y, Y), 'add_many.self': lambda Y, sh: teneva.add_many([Y, Y, 1.0, Y], e=1e-8, trunc_freq=2),
+        'orthogonalize.0': lambda Y, sh: teneva.orthogonalize(Y, 0), 'orthogonalize.mid.stab': lambda Y, sh: teneva.orthogonalize(Y, 1, use_stab=True),
+        'orthogonalize_left.1': lambda Y, sh: teneva.orthogonalize_left(Y, 1), 'orthogonalize_right.2': lambda Y, sh: teneva.orthogonalize_right(Y, 2),
+        'truncate.eigh': lambda Y, sh: teneva.truncate(Y, 1e-2), 'truncate.svd.stab': lambda Y, sh: teneva.truncate(Y, 1e-2, use_stab=True, is_eigh=False),
+        'truncate.noorth': lambda Y, sh: teneva.truncate(Y, 1e-2, orth=False),
+        'func_int': lambda Y, sh: teneva.func_int(Y), 'func_gets': lambda Y, sh: teneva.func_gets(Y, 5), 'func_sum': lambda Y, sh: teneva.func_sum(Y, -1., 2.),
+        'func_get': lambda Y, sh: teneva.func_get(np.array([[0.1] * len(sh), [-0.7] * len(sh)]), Y, -1., 1.),
+        'optima_tt': lambda Y, sh: list(teneva.optima_tt(Y, 3)), 'optima_tt_beam': lambda Y, sh: teneva.optima_tt_beam(Y, 2, l2r=False, ret_all=True),
+        'optima_func_tt_beam': lambda Y, sh: teneva.optima_func_tt_beam(Y, 3),
+        'sample_square': lambda Y, sh: teneva.sample_square(Y, 3, unique=False, seed=0), 'sample_func': lambda Y, sh: teneva.sample_func(Y, seed=0),
+        'cross.Y0': lambda Y, sh: teneva.cross(f, Y, nswp=2, info={}), 'als.Y0': lambda Y, sh: teneva.als(g(sh), f(g(sh)), Y, nswp=2, info={}),
+        'als.adaptive': lambda Y, sh: teneva.als(g(sh), f(g(sh)), Y, nswp=1, info={}, r=3),
+        'als_func.A0': lambda Y, sh: teneva.als_func(teneva.ind_to_poi(g(sh), -1., 1., sh[0], 'cheb') * 0.9, f(g(sh)), Y, nswp=2, info={}, thr_pow=0.),
+        'tt_to_qtt': lambda Y, sh: teneva.tt_to_qtt(Y) if set(sh) == {2} else None,
+        'qtt_to_tt': lambda Y, sh: teneva.qtt_to_tt(Y, 1) if set(sh) == {2} else None,
+        'erank_shape': lambda Y, sh: [teneva.erank(Y), teneva.shape(Y), teneva.ranks(Y), teneva.size(Y)],
+    }
+    return C
+
+
+def check_periodic(c):
+    res = Res()
+    name, order, rk = c['fn'], c['order'], c['rank']
+    fn = _periodic_calls()[name]
+    for sh in ([3, 3, 3, 3], [2, 2, 2, 2, 2]):
+        res.ev()
+        case = dict(c, shape=sh)
+        tags = ['fn=' + name.split('.')[0], 'periodic', 'order=' + order]
+        pat = 'genpos' if name.startswith('sample') and 'square' not in name else 'gen'
+        Y = _periodic(sh, rk, order, pat)
+        Yd = [np.array(G, order=order) for G in Y]           # same values, no sharing
+        before = [G.tobytes() for G in Y]
+        ids = [id(G) for G in Y]
+        try:
+            with warnings.catch_warnings(), contextlib.redirect_stdout(io.StringIO()):
+                warnings.simplefilter('ignore')
+                out = fn(Y, sh)
+                ref_out = fn(Yd, sh)
+        except Exception as ex:
+            res.skip('periodic call raised %s (%s)' % (type(ex).__name__, name))
+            continue
+        res.check([G.tobytes() for G in Y] == before and [id(G) for G in Y] == ids, 'periodic.mutation', case,
+                  '%s modified a tensor whose middle cores are one shared object' % name, tags + ['mutation'])
+        a = [o.tobytes() + str(o.shape).encode() for _, o in arrays_in(out, 'r')] + [repr(x) for x in (out if isinstance(out, (list, tuple)) else [out]) if isinstance(x, (int, float))]
+        b = [o.tobytes() + str(o.shape).encode() for _, o in arrays_in(ref_out, 'r')] + [repr(x) for x in (ref_out if isinstance(ref_out, (list, tuple)) else [ref_out]) if isinstance(x, (int, float))]
+        res.check(a == b, 'periodic.same_result', case,
+                  '%s gives a different result when the equal middle cores are one shared object than when they are separate copies' % name, tags)
+        bad = [(po, k) for po, o in arrays_in(out, 'result') for k, G in enumerate(Y) if np.shares_memory(o, G)]
+        res.check(not bad, 'periodic.alias', case, lambda: '%s: %s shares memory with core %d' % (name, bad[0][0], bad[0][1]), tags + ['alias'])
+        res.nt((name, order, rk, tuple(sh)))
+    return res
+
+
+CHECKERS = {'entry': check_entry, 'surface': check_surface, 'periodic': check_periodic}
 
 
 def strata(tier, seed):
@@ -420,5 +495,7 @@ def strata(tier, seed):
     names = sorted(registry())
     ranks = [1, 2] if tier == 'quick' else [1, 2, 3]
     cs = [dict(fn=n, layout=L, rank=rk) for n in names for L in LAYOUTS for rk in ranks]
+    pc = [dict(fn=n, order=o, rank=rk) for n in sorted(_periodic_calls()) for o in ('F', 'C') for rk in (2, 3)]
+    yield Stratum('periodic trains (one core object at several positions)', pc, 'periodic', size=len(pc), chunk=4, bounds={'orders': ['F', 'C']})
     yield Stratum('entries x layouts x ranks', cs, 'entry', size=len(names) * len(LAYOUTS) * len(ranks), chunk=2,
                   bounds={'functions': len(names), 'layouts': list(LAYOUTS), 'ranks': ranks})
